@@ -6,12 +6,15 @@ import ProbLogProofs.Properties.C09Cycles
 /-!
 # C09 — cycle breaking, algorithm side: the symbolic unrolling commutes with cut evaluation (property theorems only)
 
-`Cycles.breakSimpleNode` (model file `ProbLogModel/CyclesSimple.lean`) is `_break_cycles` of `problog/cycles.py`
-without the `translation` reuse table: it BUILDS an acyclic target store through the simplifying, hash-consing
-builder of C11.  `Cycles.cutEval` is the concrete reading of the same recursion ("false for a node found among its
-ancestors").  The theorems below close the gap between the two, and - with `C09Cycles` - conclude that the built DAG
-evaluates every translated root to its value in the least model (perfect model, for stratified negation) of the cyclic
-source, for every atom assignment.
+Stage 1.  `Cycles.breakSimpleNode` (model file `ProbLogModel/CyclesSimple.lean`) is `_break_cycles` of
+`problog/cycles.py` without the `translation` reuse table: it BUILDS an acyclic target store through the simplifying,
+hash-consing builder of C11.  `Cycles.cutEval` is the concrete reading of the same recursion ("false for a node found
+among its ancestors").  `C09_unroll` closes the gap between the two, and - with `C09Cycles` -
+`C09_breakSimple_correct` concludes that the built DAG evaluates every translated root to its value in the least model
+(perfect model, for stratified negation) of the cyclic source, for every atom assignment.
+
+Stage 2 (second half of the file).  The real `Cycles.breakNode` / `Cycles.breakCycles` with the reuse table:
+`C09_breakNode_valid`, `C09_breakNode_root`, `C09_breakNode_correct`, `C09_breakCycles_correct`.
 
 Side conditions (definitions in the model file / `Lemmas/UnrollMain.lean`):
 * `Stratified src lvl`: no cycle through a negative edge to a compound node.  Needed because `_break_cycles` returns
@@ -381,7 +384,7 @@ def breakCyclesS (src : Store) (opts : Opts) (keepNamed : Bool) : Except CErr St
     | .error x => .error x
     | .ok st2 => .ok st2.target
 
-theorem breakCycles_eq_S (src : Store) (opts : Opts) (keepNamed : Bool) :
+theorem C09_breakCycles_eq_S (src : Store) (opts : Opts) (keepNamed : Bool) :
     breakCycles src none opts keepNamed = breakCyclesS src opts keepNamed := by
   have h1 : ∀ fuel, bcStep1 src none fuel = bcStep1S src fuel := by
     intro fuel
@@ -400,7 +403,7 @@ theorem breakCycles_eq_S (src : Store) (opts : Opts) (keepNamed : Bool) :
 
 -- the run of `break_cycles` on `exReuseQ`: node 7 = `m` built with the reused entry of `n` (node 5); the evidence
 -- loop starts from an empty table and builds `m` again (nodes 8, 9) without reuse; the literal `¬m` becomes key `-9`
-theorem exReuseQ_run :
+theorem C09_exReuseQ_run :
     (match breakCycles exReuseQ none {} false with
       | .ok T => some (T.nodes.drop 4, T.names)
       | .error _ => none) =
@@ -408,7 +411,7 @@ theorem exReuseQ_run :
            .disj [some 1, some 6] (some (.pos 2)), .conj [some 4, some 3] none,
            .disj [some 1, some 8] (some (.neg 3))],
           [(.query, .pos 1, some 5), (.query, .pos 2, some 7), (.evNeg, .pos 3, some (-9))]) := by
-  rw [breakCycles_eq_S]
+  rw [C09_breakCycles_eq_S]
   decide
 
 example : SrcOK exReuseQ ∧ Stratified exReuseQ (fun _ => 0) := by decide
